@@ -10,6 +10,7 @@
   instruction, the stack-position stops.
 -/
 import Rva.Proofs.C04
+import Rva.Proofs.FirstLabel
 namespace Rva
 
 theorem code_of (variant code : String) (r : Range) (f : FileId) (t : String) (alts : List (Range × FileId))
@@ -128,136 +129,6 @@ theorem lostRegister_silent (g : Cfg) :
       · rfl
 
 /-! ### node in many functions -/
-
-theorem labelBefore_irrefl (a : W String) : labelBefore a a = false := by
-  simp [labelBefore, String.lt_irrefl]
-
-theorem labelBefore_trans {a b c : W String} (h1 : labelBefore a b = true) (h2 : labelBefore b c = true) :
-    labelBefore a c = true := by
-  simp only [labelBefore, Bool.or_eq_true, Bool.and_eq_true, decide_eq_true_eq, beq_iff_eq] at *
-  rcases h1 with h1 | ⟨e1, h1⟩
-  · rcases h2 with h2 | ⟨e2, _⟩
-    · left; omega
-    · left; omega
-  · rcases h2 with h2 | ⟨e2, h2⟩
-    · left; omega
-    · right
-      refine ⟨by omega, ?_⟩
-      rcases h1 with h1 | ⟨f1, h1⟩
-      · rcases h2 with h2 | ⟨f2, _⟩
-        · left; omega
-        · left; omega
-      · rcases h2 with h2 | ⟨f2, h2⟩
-        · left; omega
-        · right; exact ⟨by omega, String.lt_trans h1 h2⟩
-
-/-- two labels neither of which comes before the other have the same offsets and the same name -/
-theorem labelBefore_total {a b : W String} (h1 : labelBefore a b = false) (h2 : labelBefore b a = false) :
-    a.tok.range.start.raw = b.tok.range.start.raw ∧ a.tok.range.stop.raw = b.tok.range.stop.raw ∧
-      a.val = b.val := by
-  simp only [labelBefore, Bool.or_eq_false_iff, Bool.and_eq_false_iff, decide_eq_false_iff_not,
-    beq_eq_false_iff_ne, ne_eq] at h1 h2
-  obtain ⟨a1, a2⟩ := h1
-  obtain ⟨b1, b2⟩ := h2
-  have e1 : a.tok.range.start.raw = b.tok.range.start.raw := by omega
-  have a2' := a2.resolve_left (fun h => h e1)
-  have b2' := b2.resolve_left (fun h => h e1.symm)
-  have e2 : a.tok.range.stop.raw = b.tok.range.stop.raw := by omega
-  have a3 := a2'.2.resolve_left (fun h => h e2)
-  have b3 := b2'.2.resolve_left (fun h => h e2.symm)
-  exact ⟨e1, e2, String.le_antisymm (String.not_lt.mp b3) (String.not_lt.mp a3)⟩
-
-/-- the chosen label is one of the list and no label of the list comes before it -/
-theorem firstLabel_spec (ls : List (W String)) (hne : ls ≠ []) :
-    ∃ m, firstLabel ls = some m ∧ m ∈ ls ∧ ∀ x ∈ ls, labelBefore x m = false := by
-  unfold firstLabel
-  suffices ∀ (rest done : List (W String)) (acc : Option (W String)),
-      (∀ a, acc = some a → a ∈ done ∧ ∀ x ∈ done, labelBefore x a = false) →
-      (done ≠ [] → acc ≠ none) →
-      done ++ rest ≠ [] →
-      ∃ m, rest.foldl firstLabelStep acc = some m ∧ m ∈ done ++ rest ∧
-        ∀ x ∈ done ++ rest, labelBefore x m = false by
-    have := this ls [] none (fun a h => by simp at h) (fun h => absurd rfl h) (by simpa using hne)
-    simpa using this
-  intro rest
-  induction rest with
-  | nil =>
-    intro done acc hinv hsome hne'
-    simp only [List.append_nil] at hne' ⊢
-    cases acc with
-    | none => exact absurd rfl (hsome hne')
-    | some a => exact ⟨a, rfl, (hinv a rfl).1, (hinv a rfl).2⟩
-  | cons l rest ih =>
-    intro done acc hinv hsome _
-    simp only [List.foldl_cons]
-    have hstep := ih (done ++ [l]) (firstLabelStep acc l) ?_ (by
-      intro _
-      unfold firstLabelStep
-      cases acc with
-      | none => simp
-      | some a => simp only []; split <;> simp) (by simp)
-    · simpa [List.append_assoc] using hstep
-    · intro a ha
-      unfold firstLabelStep at ha
-      cases acc with
-      | none =>
-        simp only [Option.some.injEq] at ha
-        subst ha
-        have hd : done = [] := by
-          cases hdn : done with
-          | nil => rfl
-          | cons d ds => exact absurd rfl (hsome (by rw [hdn]; simp))
-        subst hd
-        refine ⟨by simp, ?_⟩
-        intro x hx
-        simp only [List.nil_append, List.mem_singleton] at hx
-        subst hx
-        exact labelBefore_irrefl _
-      | some m =>
-        simp only [] at ha
-        obtain ⟨hm, hmin⟩ := hinv m rfl
-        split at ha
-        · rename_i hlt
-          simp only [Option.some.injEq] at ha
-          subst ha
-          refine ⟨by simp, ?_⟩
-          intro x hx
-          rcases List.mem_append.mp hx with hx | hx
-          · cases hxl : labelBefore x l with
-            | false => rfl
-            | true =>
-              have := labelBefore_trans hxl hlt
-              rw [hmin x hx] at this
-              exact absurd this (by simp)
-          · simp only [List.mem_singleton] at hx
-            subst hx
-            exact labelBefore_irrefl _
-        · rename_i hnlt
-          simp only [Option.some.injEq] at ha
-          subst ha
-          refine ⟨List.mem_append_left _ hm, ?_⟩
-          intro x hx
-          rcases List.mem_append.mp hx with hx | hx
-          · exact hmin x hx
-          · simp only [List.mem_singleton] at hx
-            subst hx
-            simpa using hnlt
-
-/-- **C10 (`firstLabel_order_free`).** The label the lint reports at does not depend on the order in
-    which the node's labels are enumerated (they come out of a hash set): two enumerations of
-    the same labels yield labels with the same name at the same offsets. -/
-theorem firstLabel_order_free (l1 l2 : List (W String)) (hne : l1 ≠ [])
-    (hsame : ∀ x, x ∈ l1 ↔ x ∈ l2) :
-    ∃ m1 m2, firstLabel l1 = some m1 ∧ firstLabel l2 = some m2 ∧ m1.val = m2.val ∧
-      m1.tok.range.start.raw = m2.tok.range.start.raw ∧ m1.tok.range.stop.raw = m2.tok.range.stop.raw := by
-  have hne2 : l2 ≠ [] := by
-    cases l1 with
-    | nil => exact absurd rfl hne
-    | cons a t => intro e; have := (hsame a).mp (by simp); rw [e] at this; simp at this
-  obtain ⟨m1, h1, hm1, hmin1⟩ := firstLabel_spec l1 hne
-  obtain ⟨m2, h2, hm2, hmin2⟩ := firstLabel_spec l2 hne2
-  have t := labelBefore_total (hmin2 m1 ((hsame m1).mp hm1)) (hmin1 m2 ((hsame m2).mpr hm2))
-  exact ⟨m1, m2, h1, h2, t.2.2, t.1, t.2.1⟩
 
 theorem overlapping_reported (g : Cfg) (i : Nat) (hi : i < g.nodes.size)
     (hn : (g.get i).funcs.length > 1) (he : (g.get i).funcs.contains i = true)
